@@ -488,7 +488,7 @@ func TestVerifC03(t *testing.T) {
 	if h == nil {
 		t.Skip("VERIF_OUT not set")
 	}
-	n := h.N(120, 700)
+	n := h.N(120, 1000)
 	steps := 60
 	if h.Tier == "thorough" {
 		steps = 90
